@@ -150,9 +150,9 @@ pub fn corpus() -> Vec<(String, String)> {
 /// * pending = false (the fix has landed): the probe is a regression input — if it crashes again that is a
 ///   failing input of the property.
 pub const GATES: [(&str, bool, &str); 8] = [
-    ("F8", true, "let a: array<> = [1]\n"),
-    ("F9", true, "type Pt = { x: int }\nPt\nprintln(1)\n"),
-    ("F10", true, "interface Sp {\n  fn say(self: Self) -> string\n}\nimplement Sp for R {\n  fn say(self) -> string = \"beep\"\n}\nlet s = Sp.say(1)\n"),
+    ("D64", true, "let a: array<> = [1]\n"),
+    ("D65", true, "type Pt = { x: int }\nPt\nprintln(1)\n"),
+    ("D66", true, "interface Sp {\n  fn say(self: Self) -> string\n}\nimplement Sp for R {\n  fn say(self) -> string = \"beep\"\n}\nlet s = Sp.say(1)\n"),
     ("D57", false, "interface Sp {\n  fn say(self: Self) -> string\n}\nlet s = Sp.say(1)\n"),
     ("D53", false, "fn f() { f }\n"),
     ("D54", false, "implement ToString for Persn {\n  fn str(self) { \"P\" }\n}\n"),
